@@ -14,6 +14,8 @@ import (
 // as we can use the provided http.ResponseWriter directly
 type HTTPResponder struct {
 	writer http.ResponseWriter
+	// Set once copying a response body failed after the response had been started.
+	writeErr error
 }
 
 func NewHTTPResponder(w http.ResponseWriter) *HTTPResponder {
@@ -52,7 +54,18 @@ func (c *HTTPResponder) writeStatusHeader(status int) {
 
 func (c *HTTPResponder) Write(status int, body io.Reader) (written int64, err error) {
 	c.writeStatusHeader(status)
-	return io.Copy(c.writer, body)
+	written, err = io.Copy(c.writer, body)
+	if err != nil {
+		c.writeErr = err
+	}
+	return written, err
+}
+
+// Reports whether a response was started and its body could not be completed (e.g. the upstream
+// transfer failed part-way). The handler must then abort the connection instead of returning normally:
+// net/http would otherwise finish the message and the client would take the shortened body for the whole one.
+func (c *HTTPResponder) Failed() bool {
+	return c.writeErr != nil
 }
 
 func (c *HTTPResponder) WriteEmpty(status int) error {
